@@ -5,6 +5,7 @@ the operator names found in the source; the check compares the two lists.
 -/
 import Geodesy.Model.Ops.Basic
 import Geodesy.Model.Ops.Helmert
+import Geodesy.Model.Ops.Adapt
 
 namespace Geodesy
 open Text
@@ -21,11 +22,13 @@ def builtin (ce : Ops.CtorEnv) (name : Str) : Option (Ctor R) :=
   else if name == S "pop" then some (Ops.legacyPop ce)
   else if name == S "axisswap" then some (Ops.axisswapNew R ce)
   else if name == S "helmert" then some (Ops.Helmert.new R ce)
+  else if name == S "adapt" then some (Ops.Adapt.new R ce)
+  else if name == S "unitconvert" then some (Ops.Unitconvert.new R ce)
   else none
 
 /-- names of the built-ins the model covers (besides `pipeline`) -/
 def modelled : List String :=
-  ["addone", "noop", "longlat", "latlon", "latlong", "lonlat", "stack", "push", "pop", "axisswap", "helmert"]
+  ["addone", "noop", "longlat", "latlon", "latlong", "lonlat", "stack", "push", "pop", "axisswap", "helmert", "adapt", "unitconvert"]
 
 /-- leaf semantics by constructor tag -/
 def sem : LeafSem R := fun t params dir data =>
@@ -33,6 +36,8 @@ def sem : LeafSem R := fun t params dir data =>
   else if t == S "noop" then Ops.noopSem data
   else if t == S "axisswap" then Ops.axisswapSem R params dir data
   else if t == S "helmert" then Ops.Helmert.sem params dir data
+  else if t == S "adapt" then Ops.Adapt.sem params dir data
+  else if t == S "unitconvert" then Ops.Unitconvert.sem params dir data
   else if t == S "stack" || t == S "push" || t == S "pop" then Ops.placeholderSem data
   else (data, 0)
 
